@@ -1,6 +1,6 @@
 //! Signed legacy transactions for brc20_transact.
 use alloy::primitives::{Address, Bytes, TxKind, U256};
-use alloy_consensus::transaction::RlpEcdsaEncodableTx;
+use alloy_consensus::transaction::{RlpEcdsaDecodableTx, RlpEcdsaEncodableTx};
 use alloy_consensus::{SignableTransaction, TxLegacy};
 use alloy_signer::SignerSync;
 use alloy_signer_local::PrivateKeySigner;
@@ -32,4 +32,13 @@ pub fn raw_tx(signer_idx: u8, chain_id: u64, nonce: u64, to: Option<Address>, da
     let mut buf = Vec::new();
     tx.rlp_encode_signed(&sig, &mut buf);
     buf
+}
+
+/// (signer, nonce) of a raw signed legacy transaction, if it decodes.
+pub fn decode_raw(raw: &[u8]) -> Option<(Address, u64)> {
+    let mut slice: &[u8] = raw;
+    let (tx, sig) = TxLegacy::rlp_decode_with_signature(&mut slice).ok()?;
+    let hash = alloy::primitives::keccak256(tx.encoded_for_signing());
+    let addr = sig.recover_address_from_prehash(&hash).ok()?;
+    Some((addr, tx.nonce))
 }
